@@ -118,6 +118,9 @@ fn marshal_bad_argument_1of3() {
     let r = VmFunction::call(&f, &mut vm);
     assert!(matches!(r, Err(ExecutionErrorPayload::ExitCode(1))));
     kani::cover!(true, "reached");
+    // the rejected arguments are still on the stack (the run is over at this point); dropping a VM with a non-empty
+    // stack costs CBMC more than 30 minutes and says nothing about the clause
+    std::mem::forget(vm);
 }
 
 /// names reserved for the library cannot be registered
